@@ -180,7 +180,8 @@ impl<'a> Exec<'a> {
     }
 
     /// one output call on `g`, checked against the statement
-    fn check_out(&self, native: &[u64], cost: &[usize], g: &mut Box<dyn Gen>, b: &mut Book, op: &Op, hist: &[Step], on_clone: bool, counters: &mut Counters) -> bool {
+    #[allow(clippy::too_many_arguments)]
+    fn check_out(&self, native: &[u64], cost: &[usize], rounds_cur: u8, g: &mut Box<dyn Gen>, b: &mut Book, op: &Op, hist: &[Step], on_clone: bool, counters: &mut Counters) -> bool {
         let before = g.jitter().unwrap().timer_consumed();
         let had_half = b.half;
         let obs = apply(g, op);
@@ -240,10 +241,10 @@ impl<'a> Exec<'a> {
         // timer readings: a fresh collection reads the timer at least `rounds` times (exactly
         // 1+3*(rounds+1) on this non-stuck script); handing out a pending half reads it 0 times
         let want: usize = cost[b.k..(b.k + fresh).min(cost.len())].iter().sum();
-        if used != want || (fresh > 0 && used == 0) {
+        if used != want || (fresh > 0 && used < fresh * rounds_cur as usize) {
             self.ctx.violation(
                 &format!("C16:readings:{}", op.short()),
-                &format!("rounds {}: after [{}], {} on the {} read the timer {} times instead of {} ({} fresh collection(s))", self.rounds, steps_short(hist), op.short(), who, used, want, fresh),
+                &format!("rounds {}: after [{}], {} on the {} read the timer {} times instead of {} ({} fresh collection(s), each of at least {} measurements)", self.rounds, steps_short(hist), op.short(), who, used, want, fresh, rounds_cur),
                 self.replay_json(hist),
             );
             return false;
@@ -288,7 +289,7 @@ impl<'a> Exec<'a> {
             let h = &hist[..=i];
             match st {
                 Step::Out(op) => {
-                    if !self.check_out(&native, &cost, &mut g, &mut b, op, h, false, counters) {
+                    if !self.check_out(&native, &cost, rounds_cur, &mut g, &mut b, op, h, false, counters) {
                         return;
                     }
                 }
@@ -302,7 +303,7 @@ impl<'a> Exec<'a> {
                     let mut cn = native.clone();
                     let mut cc = cost.clone();
                     self.rebase(reg, &mut c, b.k, rounds_cur, &mut cn, &mut cc);
-                    if !self.check_out(&cn, &cc, &mut c, &mut cb, op, h, true, counters) {
+                    if !self.check_out(&cn, &cc, rounds_cur, &mut c, &mut cb, op, h, true, counters) {
                         return;
                     }
                     // and the original is not disturbed: checked by the steps that follow
@@ -318,7 +319,7 @@ impl<'a> Exec<'a> {
                     if reuses_half || matches!(op, Op::Fill(0)) {
                         // hands out the pending half (incl. the recorded fill_bytes(1..=4) corner) without reading
                         // the timer: nothing to abort
-                        if !self.check_out(&native, &cost, &mut g, &mut b, op, h, false, counters) {
+                        if !self.check_out(&native, &cost, rounds_cur, &mut g, &mut b, op, h, false, counters) {
                             return;
                         }
                         continue;
@@ -579,6 +580,48 @@ pub fn run(reg: &dyn Registry, ctx: &Ctx) -> Outcome {
                 }
             }
         }
+    }
+
+    // timers whose stamps return to earlier values inside a collection (non-monotonic clocks): the
+    // collection must still take at least `rounds` measurements
+    {
+        let depth = 2usize;
+        let alpha4: Vec<Step> = [Op::U32, Op::U64, Op::Fill(3), Op::Fill(9)].iter().cloned().map(Step::Out).collect();
+        let mut n = 0u64;
+        for rounds in [2u8, 64] {
+            for b in [7i64, 1 << 20] {
+                for ds in [[-2 * b, b, b, 0], [-b, b, 0, b], [b, -b, b, -b], [-b, 0, b, 2 * b], [2 * b, -b, -b, 3 * b]] {
+                    let tail = jitter_env::raw_readings(ctx.seed ^ 0x16E0 ^ b as u64, 3 * (rounds as usize + 8) * 6 + 80);
+                    let mut r: Vec<u64> = Vec::new();
+                    let mut t: u64 = 5_000_000;
+                    r.push(t);
+                    for &d in &ds {
+                        t = t.wrapping_add(d as u64);
+                        r.push(t.wrapping_add(1));
+                        r.push(t);
+                        r.push(t.wrapping_add(2));
+                    }
+                    let off = t.wrapping_sub(tail[0]).wrapping_add(1000);
+                    r.extend(tail.iter().map(|x| x.wrapping_add(off)));
+                    let (native, cost) = native_twin(reg, &r, rounds, None, 0, depth * 2 + 2);
+                    if native.len() < depth * 2 + 2 {
+                        continue;
+                    }
+                    let ex = Exec { ctx, init_pool: None, rounds, per_word: jitter_env::readings_per_word(rounds), native: &native, cost: &cost, readings: &r };
+                    let k = alpha4.len();
+                    for idx in 0..k.pow(depth as u32) {
+                        let hist = vec![alpha4[idx % k].clone(), alpha4[idx / k].clone()];
+                        let mut c = Counters::default();
+                        ex.run(reg, &hist, &mut c);
+                        total.executions += c.executions;
+                        total.transitions += c.transitions;
+                        n += 1;
+                    }
+                }
+            }
+        }
+        ctx.add("states", n);
+        ctx.set("returning_stamp_histories", n);
     }
 
     // duplicates made by plain copy: only possible if JitterRng<F> is `Copy` for a `Copy` timer (it is not,
